@@ -262,7 +262,7 @@ func (p *Program) Explore(fn *ssa.Function, cfg Config) *Result {
 					break
 				}
 				outcome, completed, detail := w.runPath(fn, prefix)
-				if cfg.DebugAborts && (outcome == "panic" || (!completed && outcome != "assume" && outcome != "assert-false")) {
+				if cfg.DebugAborts && (outcome == "panic" || (!completed && (outcome != "assume" || ex.res.Pruned < 3) && outcome != "assert-false")) {
 					fmt.Fprintf(os.Stderr, "[abort] %s: %s\n  choices: %s\n%s", outcome, firstLines(detail, 30), cx.choiceString(), cx.panicStack)
 				}
 				alts := cx.alts
@@ -352,7 +352,7 @@ func symInt(k types.BasicKind) externalFn {
 	return func(fr *frame, args []value) value {
 		cx := fr.i.cx
 		w, _ := kindWidth(k)
-		t := cx.declare(hname(args), w)
+		t := cx.declareNew(hname(args), w)
 		if cx.concrete != nil {
 			return cx.fromTerm(cx.f.Const(t.Eval(cx.concrete, map[*Term]*big.Int{}), w), k)
 		}
@@ -372,7 +372,7 @@ func init() {
 		h + "Uint8":  symInt(types.Uint8),
 		h + "Bool": func(fr *frame, args []value) value {
 			cx := fr.i.cx
-			t := cx.declare(hname(args), 0)
+			t := cx.declareNew(hname(args), 0)
 			if cx.concrete != nil {
 				return t.Eval(cx.concrete, map[*Term]*big.Int{}).Sign() != 0
 			}
@@ -386,7 +386,7 @@ func init() {
 			n := args[1].(int)
 			out := make([]value, n)
 			for i := 0; i < n; i++ {
-				t := cx.declare(fmt.Sprintf("%s_%d", hname(args), i), 8)
+				t := cx.declareNew(fmt.Sprintf("%s_%d", hname(args), i), 8)
 				if cx.concrete != nil {
 					out[i] = uint8(t.Eval(cx.concrete, map[*Term]*big.Int{}).Uint64())
 				} else {
@@ -397,7 +397,7 @@ func init() {
 		},
 		h + "Actor": func(fr *frame, args []value) value {
 			cx := fr.i.cx
-			t := cx.declare(hname(args), 96)
+			t := cx.declareNew(hname(args), 96)
 			if cx.concrete != nil {
 				return array(cx.symBytes(cx.f.Const(t.Eval(cx.concrete, map[*Term]*big.Int{}), 96)))
 			}
